@@ -172,15 +172,15 @@ type Rec struct {
 }
 
 type ModelCut struct {
-	K         int      `json:"k"`
-	LastIndex uint64   `json:"last_index"`
-	Records   []Rec    `json:"records"`
-	Other     []int    `json:"other_record_types"` // record types outside the model (must be empty)
-	Restored  Dump     `json:"restored"`
-	Reads     [3]uint64 `json:"reads"` // restored store: KVSList("") index, SessionList index, PreparedQueryList index
-	QReads    []QRead  `json:"qreads"` // restored store: the modelled read queries as the implementation answers them
-	Final     *Dump    `json:"final,omitempty"` // restored FSM after the suffix
-	Failures  []string `json:"failures,omitempty"`
+	K         int       `json:"k"`
+	LastIndex uint64    `json:"last_index"`
+	Records   []Rec     `json:"records"`
+	Other     []int     `json:"other_record_types"` // record types outside the model (must be empty)
+	Restored  Dump      `json:"restored"`
+	Reads     [3]uint64 `json:"reads"`           // restored store: KVSList("") index, SessionList index, PreparedQueryList index
+	QReads    []QRead   `json:"qreads"`          // restored store: the modelled read queries as the implementation answers them
+	Final     *Dump     `json:"final,omitempty"` // restored FSM after the suffix
+	Failures  []string  `json:"failures,omitempty"`
 }
 
 // QRead: one read of the restored store, in the vocabulary of Snapshot.Model.query / qres.
@@ -303,14 +303,97 @@ func modelReads(st *state.Store) []QRead {
 }
 
 type ModelHistory struct {
-	ID       int        `json:"id"`
-	Mode     string     `json:"mode"`
-	Mix      string     `json:"mix"`
-	Cmds     []Cmd      `json:"cmds"`
-	Results  []Res      `json:"results"`
-	Final    Dump       `json:"final"`
-	Cuts     []ModelCut `json:"cuts"`
-	Failures []Failure  `json:"failures"`
+	ID       int          `json:"id"`
+	Mode     string       `json:"mode"`
+	Mix      string       `json:"mix"`
+	Cmds     []Cmd        `json:"cmds"`
+	Results  []Res        `json:"results"`
+	Final    Dump         `json:"final"`
+	Cuts     []ModelCut   `json:"cuts"`
+	Streams  []StreamCase `json:"streams,omitempty"`
+	Failures []Failure    `json:"failures"`
+}
+
+// StreamCase: a snapshot stream no Persist would write (hand-made registration records), fed to
+// the real FSM.Restore, to exercise the restorer branches the round trip never reaches: a node
+// id moving to another name (the old node is deleted with everything on it), a name reserved by
+// another id (the whole restore fails), a record without saved indexes (stamped with the header's
+// LastIndex), a service record that changes an existing service.
+type StreamCase struct {
+	Name      string `json:"name"`
+	LastIndex uint64 `json:"last_index"`
+	Records   []Rec  `json:"records"`
+	Other     []int  `json:"other_record_types"`
+	Err       string `json:"err"` // non-empty: FSM.Restore refused the stream
+	Restored  *Dump  `json:"restored,omitempty"`
+}
+
+func craftedStreams() []StreamCase {
+	idA, idB := mNodeIDs[1], mNodeIDs[2]
+	node := func(name, id string, addr int, c, m uint64) structs.RegisterRequest {
+		return structs.RegisterRequest{Datacenter: "dc1", Node: name, ID: types.NodeID(id), Address: addrOf(addr),
+			RaftIndex: structs.RaftIndex{CreateIndex: c, ModifyIndex: m}}
+	}
+	svc := func(r structs.RegisterRequest, id, name string, port int, c, m uint64) structs.RegisterRequest {
+		r.Service = &structs.NodeService{ID: id, Service: name, Port: port, Weights: &structs.Weights{Passing: 1, Warning: 1},
+			RaftIndex: structs.RaftIndex{CreateIndex: c, ModifyIndex: m}}
+		return r
+	}
+	chk := func(r structs.RegisterRequest, id, sid string, c, m uint64) structs.RegisterRequest {
+		r.Check = &structs.HealthCheck{Node: r.Node, CheckID: types.CheckID(id), Name: "chk-" + id, Status: api.HealthPassing, ServiceID: sid,
+			Output: "out0", RaftIndex: structs.RaftIndex{CreateIndex: c, ModifyIndex: m}}
+		return r
+	}
+	cases := []struct {
+		name string
+		li   uint64
+		reqs []structs.RegisterRequest
+	}{
+		{"node id moves to another name", 9, []structs.RegisterRequest{
+			node("n1", idA, 1, 1, 1), svc(node("n1", idA, 1, 1, 1), "s1", "web", 80, 2, 2), chk(node("n1", idA, 1, 1, 1), "c1", "s1", 3, 3),
+			node("n2", idA, 1, 4, 4), svc(node("n2", idA, 1, 4, 4), "s2", "db", 81, 5, 5)}},
+		{"name of a node without serf check taken over by another id", 9, []structs.RegisterRequest{
+			node("n1", idA, 1, 1, 1), node("n2", idB, 2, 2, 2), node("n2", idA, 1, 3, 3)}},
+		{"name reserved by another id (healthy serf check): restore refused", 9, []structs.RegisterRequest{
+			node("n1", idA, 1, 1, 1), node("n2", idB, 2, 2, 2), chk(node("n2", idB, 2, 2, 2), "serfHealth", "", 3, 3), node("n2", idA, 1, 4, 4)}},
+		{"no saved indexes", 7, []structs.RegisterRequest{
+			node("n1", "", 1, 0, 0), svc(node("n1", "", 1, 0, 0), "s1", "web", 80, 2, 2)}},
+		{"later records change node and service", 9, []structs.RegisterRequest{
+			node("n1", "", 1, 1, 1), svc(node("n1", "", 1, 1, 1), "s1", "web", 80, 2, 2),
+			node("n1", idA, 2, 1, 5), svc(node("n1", idA, 2, 1, 5), "s1", "db", 80, 2, 6), chk(node("n1", idA, 2, 1, 5), "c1", "s1", 7, 7)}},
+		{"id taken from a node without id", 9, []structs.RegisterRequest{
+			node("n1", "", 1, 1, 1), node("n1", idA, 1, 1, 3)}},
+	}
+	var out []StreamCase
+	for _, c := range cases {
+		var buf bytes.Buffer
+		enc := codec.NewEncoder(&buf, structs.MsgpackHandle)
+		if err := enc.Encode(&fsm.SnapshotHeader{LastIndex: c.li}); err != nil {
+			panic(err)
+		}
+		for i := range c.reqs {
+			buf.WriteByte(byte(structs.RegisterRequestType))
+			if err := enc.Encode(&c.reqs[i]); err != nil {
+				panic(err)
+			}
+		}
+		sc := StreamCase{Name: c.name}
+		var err error
+		sc.LastIndex, sc.Records, sc.Other, err = decodeRecords(buf.Bytes())
+		if err != nil {
+			panic(err)
+		}
+		m := newMachine()
+		if rerr := m.restore(buf.Bytes()); rerr != nil {
+			sc.Err = rerr.Error()
+		} else {
+			d := modelDump(m.store())
+			sc.Restored = &d
+		}
+		m.close()
+		out = append(out, sc)
+	}
+	return out
 }
 
 var (
@@ -559,7 +642,9 @@ func modelDump(st *state.Store) Dump {
 	sort.Slice(d.Services, func(i, j int) bool {
 		return d.Services[i].Node+"\x00"+d.Services[i].ID < d.Services[j].Node+"\x00"+d.Services[j].ID
 	})
-	sort.Slice(d.Checks, func(i, j int) bool { return d.Checks[i].Node+"\x00"+d.Checks[i].ID < d.Checks[j].Node+"\x00"+d.Checks[j].ID })
+	sort.Slice(d.Checks, func(i, j int) bool {
+		return d.Checks[i].Node+"\x00"+d.Checks[i].ID < d.Checks[j].Node+"\x00"+d.Checks[j].ID
+	})
 	sort.Slice(d.Index, func(i, j int) bool { return d.Index[i][0] < d.Index[j][0] })
 	return d
 }
@@ -632,6 +717,12 @@ func decodeRecords(b []byte) (uint64, []Rec, []int, error) {
 			}
 			r := sessRow(&s)
 			recs = append(recs, Rec{T: "session", Sess: &r})
+			if s.ModifyIndex != s.CreateIndex {
+				// the model's session restorer max-merges the index row with the CREATE index, the code
+				// with ModifyIndex: equal as long as no FSM path modifies a session.  Outside the
+				// model's vocabulary otherwise (reported as a correspondence failure).
+				other = append(other, 1000+int(msg))
+			}
 		case structs.KVSRequestType:
 			var e structs.DirEntry
 			if err := dec.Decode(&e); err != nil {
@@ -1108,7 +1199,7 @@ func runModelHistory(id int, seed int64, mix string, n int, script []Cmd) ModelH
 		}
 		fd := modelDump(m.store())
 		mc.Final = &fd
-		addF(compareDumps(k, "suffix-dump", dumps[n], dumpStore(m.store()), wits[k], true))
+		addF(compareDumps(k, "suffix-dump", dumps[n], dumpStore(m.store()), wits[k].forSuffix(nil), true))
 		m.close()
 		h.Cuts = append(h.Cuts, mc)
 	}
